@@ -17,7 +17,67 @@ import (
 	"github.com/gethiox/HIDI/verifsim/simrt"
 )
 
-func init() { register("W2", runW2) }
+func init() {
+	register("W2", runW2)
+	shrinkers["W2"] = shrinkW2
+}
+
+func shrinkW2(raw json.RawMessage) []json.RawMessage {
+	var o w2Ops
+	if json.Unmarshal(raw, &o) != nil {
+		return nil
+	}
+	var out []json.RawMessage
+	clone := func() w2Ops {
+		c := o
+		c.Emitters = append([]w2Emitter(nil), o.Emitters...)
+		c.Consumers = append([]w2Consumer(nil), o.Consumers...)
+		return c
+	}
+	for i := range o.Emitters {
+		if len(o.Emitters) > 1 {
+			c := clone()
+			c.Emitters = append(c.Emitters[:i], c.Emitters[i+1:]...)
+			out = append(out, mustJSON(c))
+		}
+		if o.Emitters[i].N > 1 {
+			c := clone()
+			c.Emitters[i].N /= 2
+			out = append(out, mustJSON(c))
+		}
+	}
+	for i := range o.Consumers {
+		if len(o.Consumers) > 1 {
+			c := clone()
+			c.Consumers = append(c.Consumers[:i], c.Consumers[i+1:]...)
+			out = append(out, mustJSON(c))
+		}
+		if o.Consumers[i].Churn > 1 {
+			c := clone()
+			c.Consumers[i].Churn--
+			out = append(out, mustJSON(c))
+		}
+		if o.Consumers[i].Mode == "slow" {
+			c := clone()
+			c.Consumers[i].Mode = "fast"
+			out = append(out, mustJSON(c))
+		}
+	}
+	if o.InN > 2 {
+		c := clone()
+		c.InN = o.InN / 2
+		out = append(out, mustJSON(c))
+		c = clone()
+		c.InN = o.InN - 1
+		out = append(out, mustJSON(c))
+	}
+	if o.PortSlow > 0 {
+		c := clone()
+		c.PortSlow = 0
+		out = append(out, mustJSON(c))
+	}
+	return out
+}
 
 // --- fake MIDI port (the existing seam: driver.MIDIIn / driver.MIDIOut) ---
 
